@@ -295,3 +295,70 @@ func VerifC09ErrorIsolation() {
 		vassert(errors.Is(e1, c09ErrNode) && errors.Is(e2, c09ErrNode), "the node's error is matchable in every run")
 	}
 }
+
+type c09Store struct{ m map[string][]byte }
+
+func (s *c09Store) Get(ctx context.Context, id string) ([]byte, bool, error) {
+	vMu.Lock()
+	defer vMu.Unlock()
+	b, ok := s.m[id]
+	return b, ok, nil
+}
+func (s *c09Store) Set(ctx context.Context, id string, b []byte) error {
+	vMu.Lock()
+	defer vMu.Unlock()
+	s.m[id] = append([]byte{}, b...)
+	return nil
+}
+
+// The compiled interrupt configuration belongs to the runnable, not to a run: a caller that goes through all its
+// interrupts (before a, then before b) leaves the next caller — overlapping or later — with the same interrupt points.
+func VerifC09InterruptConfig() {
+	ctx := context.Background()
+	vcfg("delaybound", 1+vtier())
+	vcfg("race", 1)
+	g := NewGraph[map[string]any, map[string]any]()
+	for _, k := range []string{"p", "a", "b"} {
+		key := k
+		_ = g.AddLambdaNode(key, InvokableLambda(func(ctx context.Context, in map[string]any) (map[string]any, error) {
+			vyield()
+			return map[string]any{key: 1}, nil
+		}))
+	}
+	_ = g.AddEdge(START, "p")
+	_ = g.AddEdge("p", "a")
+	_ = g.AddEdge("a", "b")
+	_ = g.AddEdge("b", END)
+	store := &c09Store{m: map[string][]byte{}}
+	before := []string{"a", "b"}
+	r, err := g.Compile(ctx, WithCheckPointStore(store), WithInterruptBeforeNodes(before))
+	vassert(err == nil, "graph compiles")
+	// one caller: every call until the run finishes; returns the interrupt-before nodes reported by each call
+	session := func(id string) []string {
+		var seen []string
+		for call := 0; call < 4; call++ {
+			_, e := r.Invoke(ctx, map[string]any{"in": 1}, WithCheckPointID(id))
+			if e == nil {
+				break
+			}
+			info, ok := ExtractInterruptInfo(e)
+			if !ok {
+				seen = append(seen, "error:"+e.Error())
+				break
+			}
+			for _, n := range info.BeforeNodes {
+				seen = append(seen, n)
+			}
+		}
+		return seen
+	}
+	var s2 []string
+	go func() { s2 = session("y") }()
+	s1 := session("x")
+	vquiesce()
+	s3 := session("z")
+	ok := func(s []string) bool { return len(s) == 2 && s[0] == "a" && s[1] == "b" }
+	vassert(ok(s1) && ok(s2), "two overlapping callers are each interrupted before a and then before b")
+	vassert(ok(s3), "a later caller meets the same interrupt points")
+	vassert(len(before) == 2 && before[0] == "a" && before[1] == "b", "the list the application passed at compile time is not modified")
+}
